@@ -237,7 +237,11 @@ impl Polynomial<Cmplx> {
             roots[2] = roots[0];
         } else {
             let sqrt = (- 27. * a * a * dis).sqrt();
-            let base = if d1 < Cmplx::zero() { d1 - sqrt } else { d1 + sqrt } / 2.;
+            // Take the sign that avoids cancellation in d1 +/- sqrt (as quadratic_solve does):
+            // |d1 +/- s|^2 = |d1|^2 + |s|^2 +/- 2 Re( conj(d1) s ). Comparing d1 with zero
+            // lexicographically picked the cancelling sign whenever the square root fell on
+            // the other side of its branch cut (e.g. x^3 + i, where -27 a^2 dis = -729 - 0i)
+            let base = if ( d1.conj() * sqrt ).real < 0.0 { d1 - sqrt } else { d1 + sqrt } / 2.;
             let k = base.pow( &Cmplx::new( 1. / 3.0, 0.0 ) );
             roots[0] = -(b + k + d0 / k) / ( 3. * a );
             let u = Cmplx::new( -0.5, (3.0_f64).sqrt() / 2.0 );
